@@ -90,13 +90,9 @@ fn same_value(a: &Value, b: &Value) -> Result<(), String> {
             _ => vec![],
         }
     };
-    // NaN payloads other than the reserved ones are not kept by the format: compare NaN-ness only
+    // bit for bit: the sign and payload of every NaN, the sign of zero
     let (ba, bb) = (bits(a), bits(b));
-    let canon = |x: u64| {
-        let f = f64::from_bits(x);
-        if f.is_nan() && x != 0x7ff8000000000001 && x != 0x7ff8000000000002 && x != 0x7ff8000000000003 { f64::NAN.to_bits() } else { x }
-    };
-    if ba.len() != bb.len() || ba.iter().zip(&bb).any(|(x, y)| canon(*x) != canon(*y)) {
+    if ba != bb {
         return Err(format!("bits: {} vs {}", describe(a), describe(b)));
     }
     if a != b && ba.is_empty() {
@@ -113,6 +109,12 @@ fn compare_runs(a: &RunOut, b: &RunOut) -> Result<(), (String, String)> {
         (Ok(()), Ok(())) => {}
         (Err(x), Err(y)) if x == y => {}
         (x, y) => return Err(("error".into(), format!("original {x:?} vs re-read {y:?}"))),
+    }
+    // a run cut off by the execution limit stops at an arbitrary point: only the error is compared
+    if let Err(e) = &a.res {
+        if e.contains("Maximum execution time exceeded") {
+            return Ok(());
+        }
     }
     if a.stack.len() != b.stack.len() {
         return Err(("stack-len".into(), format!("{} vs {}", a.stack.len(), b.stack.len())));
@@ -763,6 +765,26 @@ fn tie_values(r: &mut Rng, n: usize) {
         num(&[], &[255.0]),
         byte(&[], &[255]),
     ];
+    // numbers the old representation lost: NaN signs and payloads, floats that the default parser of
+    // serde_json read 1 ulp off, and arbitrary bit patterns
+    for bits in [0xfff8000000000000u64, 0x7ff8000000000004, 0x7ff0000000000001, 0xfff0000000000000, 0x8000000000000000, 0x1, 0x7fefffffffffffff] {
+        vals.push(num(&[], &[f64::from_bits(bits)]));
+        vals.push(num(&[2], &[f64::from_bits(bits), 1.5]));
+        vals.push(cplx(&[], &[uiua::Complex::new(f64::from_bits(bits), f64::from_bits(bits ^ 0x8000000000000000))]));
+    }
+    for x in [246.94165062806206f64, 0.1, 1e23, 5e-324, 2.2250738585072014e-308, 1.7976931348623157e308, 0.30000000000000004] {
+        vals.push(num(&[], &[x]));
+    }
+    for k in 0..(n / 5) {
+        let len = 1 + r.below(4);
+        if k % 2 == 0 {
+            let d: Vec<f64> = (0..len).map(|_| f64::from_bits(r.next())).collect();
+            vals.push(num(&[len], &d));
+        } else {
+            let d: Vec<uiua::Complex> = (0..len).map(|_| uiua::Complex::new(f64::from_bits(r.next()), f64::from_bits(r.next()))).collect();
+            vals.push(cplx(&[len], &d));
+        }
+    }
     while vals.len() < n {
         let mut v = gen_value(r, &cfg, 0);
         match r.below(8) {
@@ -802,6 +824,9 @@ fn tie_values(r: &mut Rng, n: usize) {
         "[[1.0,2.0],[3.0,4.0]]", "[[1,2],[3,4]]", "[[1,2],[3.0,4.0]]", "[[2,1],[[1.0,2.0],[3.0,4.0]]]", "{\"empty_boxes\":[]}", "{\"empty_complex\":[]}", "[[0,2],{\"empty_boxes\":[]}]", "[[0],{\"empty_complex\":[]}]",
         "null", "true", "[null,1.0]", "[[1.0,null]]", "[[],[[1.0,2.0]]]", "[[3],[1,2]]", "[[2],[1,2],{}]", "[256]", "[1,256]", "[[2],[1,256]]", "\"a\\u0000b\"", "[[],{\"b\":1}]", "[[],[{\"b\":1}]]", "1e2", "[1e2]", "[[2],[[1],[2]]]",
         "[[1],[[2],[3]]]", "[[1],[[1],[3]]]", "[[2],[\"a\",\"b\"],[1,2]]",
+        "{\"nan\":9221120237041090564}", "{\"nan\":0}", "{\"nan\":1.5}", "{\"nan\":-1}", "{\"nan\":18446744073709551616}", "{\"NaN\":null}", "\"nan\"", "[{\"nan\":5},1.0]",
+        "[[\"NaN\",1.0]]", "[[\"∞\",\"-∞\"],[{\"nan\":7},\"W\"]]", "[[],[[\"NaN\",1.0]]]", "[[3],\"NaN\"]", "[[1],\"W\"]", "[[2],\"NaN\"]", "[\"NaN\",1.0]", "[[1.0,null]]", "[[null,null]]",
+        "[[1,2],[[1,2],[3,4]]]", "{\"b\":{\"nan\":3}}", "[{\"b\":\"NaN\"}]", "{\"nan\":3,\"x\":1}", "{\"b\":1,\"nan\":3}",
     ];
     for (k, t) in extra.iter().enumerate() {
         let back = catch(|| serde_json::from_str::<Value>(t));
@@ -860,7 +885,48 @@ fn tie_framing(r: &mut Rng, n: usize) {
         let Ok(text) = catch(|| asm.to_uasm()) else { continue };
         emit("real", &src, &text);
         // mutated texts: the reader on inputs no writer produced
-        match r.below(6) {
+        match r.below(11) {
+            6 => {
+                // cut a line short (unterminated JSON)
+                let ls: Vec<&str> = text.split('\n').collect();
+                let i = r.below(ls.len());
+                let cut: String = ls[i].chars().take(r.below(ls[i].chars().count() + 1)).collect();
+                let mut out: Vec<String> = ls.iter().map(|x| x.to_string()).collect();
+                out[i] = cut;
+                emit("cut-line", &src, &out.join("\n"));
+            }
+            7 => {
+                // replace one character of a line
+                let cs: Vec<char> = text.chars().collect();
+                let i = r.below(cs.len());
+                let c = *r.pick(&['x', '9', '"', '[', ']', '{', '}', ' ', ',', ':', '-', 'e', '\\', 'é']);
+                let t: String = cs.iter().enumerate().map(|(k, ch)| if k == i { c } else { *ch }).collect();
+                emit("garble-char", &src, &t);
+            }
+            8 => {
+                // spans that refer to files / macros that are not there, and no blank line after the spans
+                let t = text.replacen("\nSPANS\n", &format!("\nSPANS\nfile{} [1,1,0,0] [1,2,1,1]\nmacro{} [1,1,0,0] [1,2,1,1]\n", r.below(3), r.below(3)), 1);
+                let t = if r.chance(1, 2) { t.replacen("\n\nFILES\n", "\nFILES\n", 1) } else { t };
+                emit("bad-span-ref", &src, &t);
+            }
+            9 => {
+                // delete one line / duplicate one line
+                let mut ls: Vec<&str> = text.split('\n').collect();
+                let i = r.below(ls.len());
+                if r.chance(1, 2) {
+                    ls.remove(i);
+                } else {
+                    let l = ls[i];
+                    ls.insert(i, l);
+                }
+                emit("line-del-dup", &src, &ls.join("\n"));
+            }
+            10 => {
+                // numbers out of range
+                let t = text.replacen(" 1\n", " 99999999999999999999999\n", 1).replacen(",0]", ",4294967296000]", 1);
+                let t = if t.contains("\nTEST ASSERTS\n") { t.replacen("\nTEST ASSERTS\n", "\nTEST ASSERTS\n-", 1) } else { format!("{t}\nTEST ASSERTS\nx\n") };
+                emit("bad-numbers", &src, &t);
+            }
             0 => {
                 // drop one marker line
                 let m = MUT_MARKERS[r.below(MUT_MARKERS.len())];
